@@ -407,7 +407,7 @@ class Sampler(BaseSampler, Module):
         # uint32_t version;
         w.uint32(self.version)
         # uint8_t smp_num[ 128 ];
-        f.write(self.note_samples.bytes)
+        f.write(self.note_samples.bytes.ljust(128, b"\0"))
         # uint32_t max_version;
         w.uint32(self.max_version)
         # int32_t editor_cursor;
